@@ -680,6 +680,11 @@ impl Mp4TrackWriter {
                         "sequence parameter set is shorter than its 4-byte header",
                     ));
                 }
+                if avc_config.seq_param_set.len() > 0xFFFF || avc_config.pic_param_set.len() > 0xFFFF {
+                    return Err(Error::InvalidData(
+                        "parameter set is longer than its 16-bit length field allows",
+                    ));
+                }
                 trak.tkhd.set_width(avc_config.width);
                 trak.tkhd.set_height(avc_config.height);
 
